@@ -539,6 +539,14 @@ def answer (line : String) : String :=
       | some (out, st) => " ".intercalate out ++ " | " ++ toString st.1.1.length ++ " " ++ showHooks st.1.2
       | none => "bad-op"
     | _, _ => "bad-op"
+  | "cops3" :: l :: h :: ops =>
+    -- the counting wrapper over a memory tracker (limit `l`) over the probe input
+    match l.toNat?, parseHex h with
+    | some l, some bs =>
+      match runOpsSt (countedInput (memInput l (traceRec (hintInput .exact false)))) ops (((bs, []), 0), 0) [] with
+      | some (out, st) => " ".intercalate out ++ " | " ++ toString st.1.1.1.length ++ " " ++ showHooks st.1.1.2
+      | none => "bad-op"
+    | _, _ => "bad-op"
   | "mops2" :: l :: mode :: short :: h :: ops =>
     match l.toNat?, parseLenMode mode, parseHex h with
     | some l, some mode, some bs =>
